@@ -44,7 +44,11 @@ pub fn csr_space(conformant_only: bool) -> Space<CsrCase> {
         dims.push(nd);
     }
     // attribute lists: all sequences of <= 2 over the 5 atoms (31 values); <= 3 handled by a sweep
-    let atoms = attr_atoms();
+    let mut atoms = attr_atoms();
+    if conformant_only {
+        // a caller-supplied second extension request is not a conformant parameter set
+        atoms.retain(|(_, a)| a.oid != ATTR_OID_EXTREQ);
+    }
     let mut d = Dim::new("attributes");
     for (la, a) in &atoms {
         let a1 = a.clone();
@@ -157,14 +161,20 @@ pub fn run(prop: &str, tier: &str, replay: Option<&str>) -> i32 {
     let thorough = tier == "thorough";
     let mut rep = Report::new(prop, tier);
     rep.assume("content sweeps sign with the stub signer; the parse-back round trip uses real Ed25519 / P-256 / P-384 / RSA keys because parsing verifies the signature");
+    add_sections(&mut rep, prop, thorough, false);
+    run::finish(rep)
+}
+
+/// The CSR sections; also used by C04 / C05 (other rule classes over the same exploration).
+pub fn add_sections(rep: &mut Report, prop: &str, thorough: bool, conformant_only: bool) {
     let known = load_known(prop);
-    let space = csr_space(false);
+    let space = csr_space(conformant_only);
     let cap = if thorough { 1100 } else { 50 };
     let raw = fake_pub(Alg::Ed25519, 3);
     let (key, _log) = stub_key(Alg::Ed25519, &raw);
     let key_pub = KeyPub { alg: Alg::Ed25519, raw };
     {
-        let sec = Section::new("levels/csr", "all CSR states with exactly k non-default dimensions (dn, sans, key_usages, ekus, custom_exts, attribute lists of <= 2 over 5 atoms)").with_deadline(cap);
+        let sec = Section::new("csr/levels", "all CSR states with exactly k non-default dimensions (dn, sans, key_usages, ekus, custom_exts, attribute lists of <= 2 over 5 atoms)").with_deadline(cap);
         run::levels(&sec, &space, if thorough { 6 } else { 4 }, &|c, _| judge(prop, &known, c, &key, &key_pub));
         rep.add(sec);
     }
@@ -192,8 +202,8 @@ pub fn run(prop: &str, tier: &str, replay: Option<&str>) -> i32 {
                 }
             }
         }
-        let cases: Vec<(Vec<usize>, bool)> = lists.iter().flat_map(|l| [(l.clone(), false), (l.clone(), true)]).collect();
-        let sec = Section::new("sweep/attribute-lists", "every sequence of <= 3 caller attributes over 5 atoms (duplicate OIDs, all orders), with and without rcgen's own extension request");
+        let cases: Vec<(Vec<usize>, bool)> = lists.iter().filter(|l| !conformant_only || !l.contains(&4)).flat_map(|l| [(l.clone(), false), (l.clone(), true)]).collect();
+        let sec = Section::new("csr/sweep/attribute-lists", "every sequence of <= 3 caller attributes over 5 atoms (duplicate OIDs, all orders), with and without rcgen's own extension request");
         run::sweep_cases(&sec, &cases, &|c| format!("attrs={:?} own_request={}", c.0.iter().map(|i| atoms[*i].0.clone()).collect::<Vec<_>>(), c.1), &|c| {
             let mut st = CertState::default();
             if c.1 {
@@ -240,14 +250,14 @@ pub fn run(prop: &str, tier: &str, replay: Option<&str>) -> i32 {
                 }
             }
         }
-        let sec = Section::new("sweep/refusal", "every combination of values of the five fields a CSR cannot express (serial 3 x is_ca 4 x name constraints 3 x CRL DPs 2 x AKI flag 2) x 8 base shapes: refused iff any is set");
+        let sec = Section::new("csr/sweep/refusal", "every combination of values of the five fields a CSR cannot express (serial 3 x is_ca 4 x name constraints 3 x CRL DPs 2 x AKI flag 2) x 8 base shapes: refused iff any is set");
         run::sweep_cases(&sec, &cases, &|c| format!("serial={:?} is_ca={:?} nc={} dps={} aki={} sans={} ku={}", c.st.serial, c.st.is_ca, c.st.nc.is_some(), c.st.crl_dps.len(), c.st.use_aki, c.st.sans.len(), c.st.key_usages.len()), &|c| judge(prop, &known, c, &key, &key_pub));
         rep.add(sec);
     }
     {
         // all 512 key-usage subsets in a CSR
         let cases: Vec<u16> = (0..512).collect();
-        let sec = Section::new("sweep/key-usage-512", "all 512 key-usage subsets requested in a CSR");
+        let sec = Section::new("csr/sweep/key-usage-512", "all 512 key-usage subsets requested in a CSR");
         run::sweep_cases(&sec, &cases, &|m| format!("ku={:09b}", m), &|m| {
             let mut st = CertState::default();
             st.key_usages = (0..9u8).filter(|i| m >> i & 1 == 1).collect();
@@ -270,12 +280,12 @@ pub fn run(prop: &str, tier: &str, replay: Option<&str>) -> i32 {
                 };
                 let kpub = z.key_pub(a);
                 let rsa = z.kind.is_rsa();
-                let sec = Section::new(&format!("roundtrip/{} as {}", z.name, a.name()), "serialize_request -> from_der with a real key: same subject, SAN multiset, KU set, EKU set, public key, algorithm; content also judged by the reference decoder").with_deadline(cap);
+                let sec = Section::new(&format!("csr/roundtrip/{} as {}", z.name, a.name()), "serialize_request -> from_der with a real key: same subject, SAN multiset, KU set, EKU set, public key, algorithm; content also judged by the reference decoder").with_deadline(cap);
                 run::levels(&sec, &space, if rsa { 1 } else if thorough { 3 } else { 2 }, &|c, _| {
                     let mut out = judge(prop, &known, c, &kp, &kpub);
                     if parser_supported(c) && !refmodel::spec::csr_unsupported(&c.st) {
                         let rt = round_trip(c, &kp, &kpub);
-                        out.findings.extend(rt.findings);
+                        out.findings.extend(rt.findings.into_iter().filter(|f| relevant(prop, f)));
                         out.transitions += rt.transitions;
                     }
                     out
@@ -284,5 +294,4 @@ pub fn run(prop: &str, tier: &str, replay: Option<&str>) -> i32 {
             }
         }
     }
-    run::finish(rep)
 }
